@@ -458,15 +458,14 @@ func ruleTaskQueuedAfterDurableMarker(c *report.Ctx) {
 	p := c.P
 	c.Rule("task-queued-after-durable-marker", "OnRemoveWallet hands the removal task to the worker (PushRemove) only after the write transaction that stores the removal flag (MarkDeleteWallet) returned without error: queued earlier, the worker can commit its first removal step before the flag is durable, and a crash in between leaves a wallet that is listed as ready, is not resumed as a removal at restart, and has lost its coins, addresses and balance", 1)
 	on := fn(c, pkgWallet, "NtfnsHandler", "OnRemoveWallet")
-	push := fn(c, pkgWallet, "WalletTaskChan", "PushRemove")
 	mark := fn(c, pkgTxmgr, "SyncStore", "MarkDeleteWallet")
 	upd := fn(c, pkgDB, "", "Update")
-	if on == nil || push == nil || mark == nil || upd == nil {
+	if on == nil || mark == nil || upd == nil {
 		return
 	}
 	n := 0
 	for _, f := range reachIn(p, on, pkgWallet) {
-		for i, s := range calls(f, push) {
+		for i, s := range pushSites(c, f, "remove") {
 			n++
 			key := siteKey(f, "PushRemove~after-flag", i+1)
 			ok := false
